@@ -21,7 +21,7 @@ import ast
 
 from ..engine.model import AnalysisError, src, walk_own
 from ..engine.flow import Flow
-from ..engine.inline import Inliner, norm_text, resolved_in_block, cmp_parts
+from ..engine.inline import range_triple, Inliner, norm_text, resolved_in_block, cmp_parts
 from ..engine.typestate import FactDomain, EventDomain, names_in
 
 MOD = 'basic_robotics.path_planning.pathplanner'
@@ -310,7 +310,10 @@ class Checker:
         ends, brks, exits = Flow(dom).run_loop_body(g.loop.body, {init})
         # R16.1
         it = g.loop.iter
-        ok_iter = isinstance(it, ast.Call) and src(it.func) == 'range' and len(it.args) == 1 and src(it.args[0]) == 'self.iterations'
+        rt = range_triple(it)
+        # trip count == self.iterations, wherever the counter starts: range(n), range(1, n + 1), reversed(range(n)), ...
+        ok_iter = rt is not None and ((rt[2] == 1 and rt[0][0] == '' and rt[1][0] == 'self.iterations' and rt[1][1] - rt[0][1] == 0)
+                                      or (rt[2] == -1 and rt[1][0] == '' and rt[0][0] == 'self.iterations' and rt[0][1] - rt[1][1] == 0))
         rep.ob('R16.1', fi, 'for ... in ' + src(it), ok_iter, 'growth loop does not run exactly self.iterations times', line=g.loop.lineno)
         counts = sorted({e[0][1][0] for e in ends})
         rep.ob('R16.1', fi, 'insertions per iteration', counts == [1],
